@@ -380,6 +380,16 @@ impl C15 {
                 u.unions[ui].members.insert(at, vs);
             }
         }
+        if self.overlap {
+            // a union may also list the very same version set twice in a row (two equal specs
+            // that were interned to one id): the meaning of the requirement does not change
+            for ui in 0..u.unions.len() {
+                if t.chance(1, 3) {
+                    let first = u.unions[ui].members[0];
+                    u.unions[ui].members.insert(0, first);
+                }
+            }
+        }
         // ids: sparse for solvables (crossing chunk boundaries), dense elsewhere
         let params = crate::gen::Params::default();
         crate::gen::gen_ids(&mut t, &mut u, &params);
